@@ -70,7 +70,6 @@ func c08GenInt(s Src) Val {
 	return iv(n)
 }
 
-var digits = []string{"0", "1", "2", "3", "4", "5", "6", "7", "8", "9"}
 
 func c08GenDec(s Src) Val {
 	var txt string
